@@ -6,8 +6,9 @@ vars == <<l, bad>>
 HasNul(s) == \E i \in 1..Len(s) : s[i] = 0
 OkFormat(e) ==
   /\ e.ub = 0
-  /\ ~HasNul(e.fmt) =>           \* a C string cannot carry NUL to strftime: no functional oracle there
-       LET r == FormatOut(e.fmt, [cs |-> e.cs, off |-> e.off, abbr |-> e.abbr], e.fs, e.t, e.env) IN
+  \* a stretch that goes to strftime and contains a NUL has no recorded answer (a C string cannot carry it): the format
+  \* is then undetermined; NUL bytes in ordinary text between library-rendered specifiers are ordinary bytes
+  /\ LET r == FormatOut(e.fmt, [cs |-> e.cs, off |-> e.off, abbr |-> e.abbr], e.fs, e.t, e.env) IN
        r[1] => e.out = r[2]
 \* ---- C07: the family of lossless formats ----
 Kinds(fmt) == LET it == Items(fmt) IN {it[k][2] : k \in {k \in 1..Len(it) : it[k][1] = "int"}}
